@@ -116,6 +116,7 @@ def rawPrimary : Nat → List Tok → Option (Expr × List Tok)
     | .word w :: .punct 40 :: rest => do          -- fn(
       let (args, rest') ← rawArgs fuel rest
       some (.call (wordText w) args, rest')
+    | .word w :: .punct 91 :: .str k :: .punct 93 :: rest => some (.mapAt (.raw (wordText w)) k, rest)   -- name['key']
     | .word w :: rest =>
       let t := wordText w
       if t.toList.all (fun c => c.isDigit) then some (.int t.toInt!, rest)
@@ -140,6 +141,7 @@ end
 
 /-- a RawObject text as an expression when it is exactly one identifier / call / literal; else `.raw` -/
 def rawExpr (b : Bytes) : Expr :=
+  if wordText b = labelsFpText then .labelsFp else
   let toks := Qryn.Lex.lex b
   match rawPrimary (toks.length + 1) toks with
   | some (e, []) => if renderExpr e == b then e else .raw (wordText b)
@@ -173,6 +175,24 @@ def toExpr : Nat → SX → Expr
       (match x.field "patternObj" with
        | .nil => .matchFn (toExpr fuel (x.field "col")) (x.field "pattern").bytes
        | po => .call "match" [toExpr fuel (x.field "col"), toExpr fuel po])
+    -- ---- the SQL-side LogQL pipeline stages (C07): ids of `regexMap` are assigned afterwards, in rendering order (`Sql.DumpX`)
+    | .node "sqlMapUpdate" _ => .call "mapUpdate" [toExpr fuel (x.field "m1"), toExpr fuel (x.field "m2")]
+    | .node "sqlJsonParser" _ =>
+      (match toExpr fuel (x.field "col") with
+       | .raw "string" =>
+         .jsonMap (((x.field "labels").items.map SX.bytes).zip ((x.field "paths").items.map (fun p => p.items.filterMap (fun a =>
+           match a with
+           | .node "StringVal" _ => some (JArg.key (a.field "val").bytes)
+           | .node "IntVal" _ => (match a.field "val" with | .int i => some (JArg.idx i) | _ => none)
+           | .str k => some (JArg.key k)      -- the tree before the `fix:` of array positions held plain strings
+           | _ => none))))
+       | _ => .raw "")
+    | .node "regexMap" _ =>
+      (match toExpr fuel (x.field "col") with
+       | .raw "string" => .regexMap ((x.field "labels").items.map SX.bytes) (x.field "re").bytes 0
+       | _ => .raw "")
+    | .node "mapDropFilter" _ =>
+      .mapDrop (toExpr fuel (x.field "col")) (((x.field "labels").items.map SX.bytes).zip ((x.field "values").items.map SX.bytes))
     | .node "SqlBitSetAnd" _ => .bitSetAnd (toExprs fuel (x.field "clauses").items)
     | .node "OrderBy" _ =>
       .orderBy (toExpr fuel (x.field "col")) (match x.field "direction" with | .int 3 => .asc | _ => .desc)
